@@ -48,6 +48,10 @@ def r1_layering(cx):
         w = last.value.args[0].id
         src = [a for a in assigns_to(ud, w)]
         ok = w == params(ud)[1] and not src or (len(src) == 1 and ("%s.items()" % params(ud)[1]) in U(src[0].value))
+    if not ok and isinstance(last, ast.Expr) and isinstance(last.value, ast.Call) and U(last.value.func) == "self.__dict__.update" and len(last.value.args) == 1:
+        # a filtered copy of the incoming dict (the filter itself is C16.R3's business)
+        a_ = last.value.args[0]
+        ok = isinstance(a_, (ast.Call, ast.DictComp)) and ("%s.items()" % params(ud)[1]) in U(a_) or any(("%s.items()" % w_) in U(a_) for w_ in [U(t.targets[0]) for t in walk_body(ud.body) if isinstance(t, ast.Assign) and ("%s.items()" % params(ud)[1]) in U(t.value)])
     cx.require(ok, last, "_update_dict ends by updating the instance dict (override semantics)", construct=short(last))
 
 
@@ -117,7 +121,24 @@ def r3_unknown_filtered(cx):
             and not [a for a in assigns_to(fn, d) + assigns_to(fn, "unknown_opts") if un and a.lineno > un[0].lineno] \
             and not [c for c in find_calls(fn.body) if isinstance(c.func, ast.Attribute) and U(c.func.value) == "unknown_opts"
                      and c.func.attr in ("difference_update", "intersection_update", "discard", "remove", "pop", "clear", "symmetric_difference_update")]
-    cx.require(ok, pops[0] if pops else fn, "every unknown key is removed before the instance dict is updated, unconditionally",
+    def _filtered_update(call_):
+        """self.__dict__.update(<copy of the working dict without the unknown keys>): dict((k, v) for k, v in d.items() if k not in unknown_opts) / dict comprehension."""
+        if not (call_.args and len(call_.args) == 1):
+            return False
+        a_ = call_.args[0]
+        a_ = trace(a_, fn) if isinstance(a_, ast.Name) else a_
+        g_ = None
+        if isinstance(a_, ast.Call) and call_name(a_) == "dict" and len(a_.args) == 1 and isinstance(a_.args[0], (ast.GeneratorExp, ast.ListComp)) and isinstance(a_.args[0].elt, ast.Tuple):
+            g_, kv_ = a_.args[0].generators, [U(e_) for e_ in a_.args[0].elt.elts]
+        elif isinstance(a_, ast.DictComp):
+            g_, kv_ = a_.generators, [U(a_.key), U(a_.value)]
+        if g_ is None or len(g_) != 1 or not isinstance(g_[0].target, ast.Tuple):
+            return False
+        tg_ = [U(e_) for e_ in g_[0].target.elts]
+        return tg_ == kv_ and U(g_[0].iter) == "%s.items()" % d and [U(i_) for i_ in g_[0].ifs] == ["%s not in unknown_opts" % tg_[0]]
+    if not ok and not pops and len(upd) == 1 and _filtered_update(upd[0]) and not guard_texts(upd[0]):
+        ok = not [a for a in assigns_to(fn, "unknown_opts") if un and a.lineno > un[0].lineno]
+    cx.require(ok, pops[0] if pops else (upd[0] if upd else fn), "every unknown key is removed before the instance dict is updated, unconditionally",
                construct="for u in unknown_opts: dict_.pop(u, None) ; self.__dict__.update(dict_)")
     flt = [a for a in fn.body if isinstance(a, ast.Assign) and U(a.targets[0]) == d]
     ok = len(flt) == 1 and U(flt[0].value) == "dict(((k, v) for k, v in %s.items() if k not in self._init_attrs))" % d0 and (not upd or syn_dominates(flt[0], upd[0])) and (not un or syn_dominates(flt[0], un[0]))
